@@ -3,7 +3,7 @@ import os, re, subprocess
 import vlib
 
 SIDES = {  # (fp, clock) -> expressions
-    (0, 0): ['i', '3', 'j + 1'], (1, 0): ['d', '1.5', 'fabs(d)'], (0, 1): ['x', 'y'], (1, 1): ['x + 1.5'],
+    (0, 0): ['i', '3', 'j + 1', 'ci'], (1, 0): ['d', '1.5', 'fabs(d)', 'cd', 'cda[1]', 'td', 'cd', 'cda[0]'], (0, 1): ['x', 'y'], (1, 1): ['x + 1.5', 'x + cd'],     # cd: const double, cda: const double array, td: typedef'd double
 }
 RELS = ['<', '<=', '>=', '>', '==', '!=']
 
@@ -149,7 +149,7 @@ def decls(vs, cs, rng, pfx):
 
 
 def render(d, rng):
-    glob = 'clock x, y; hybrid clock h; int i, j; double d, e; bool b, c;\nvoid fv(double p) { }\n' + decls(d['vars'], d['chans'], rng, 'g')
+    glob = 'clock x, y; hybrid clock h; int i, j; double d, e; bool b, c;\nconst int ci = 2; const double cd = 1.5; const double cda[2] = {1.5, 2.5}; typedef double real_t; real_t td;\nvoid fv(double p) { }\n' + decls(d['vars'], d['chans'], rng, 'g')
     tx = []
     order = list(range(len(d['templs'])))
     rng.shuffle(order)
